@@ -227,7 +227,7 @@ fn build(tier: Tier) -> Vec<Scenario> {
     let mut out = vec![];
     let (flen, clen, freps, creps) = match tier {
         Tier::Quick => (7usize, 7usize, 6u64, 5u64),
-        Tier::Thorough => (9, 9, 6, 5),
+        Tier::Thorough => (11, 11, 7, 6),
     };
     // file source: one scenario per first byte to spread over processes
     for first in 0..3usize {
